@@ -6,8 +6,10 @@ import numpy as np
 from check import Failure
 from sfv import gen
 from sfv.canon import tok, untok, err_cat, dtype_tok, array_toks
+from sfv import locmap_hook            # regenerates Gen/LocMap.lean with the other translators (see the module)
+from sfv.props import locmap_grid as lmg
 
-TARGETS = ['SFModel.Props.C04', 'SFModel.Bridge', 'SFModel.Props.C02', 'SFModel.Props.C04Frame']
+TARGETS = ['SFModel.Props.C04', 'SFModel.Bridge', 'SFModel.Props.C02', 'SFModel.Props.C04Frame'] + locmap_hook.TARGETS
 THEOREMS = [
     'SF.C04.slice_positions_in_range', 'SF.C04.slice_positions_arith', 'SF.C04.slice_positions_complete_pos',
     'SF.C04.slice_positions_strict', 'SF.C04.int_position', 'SF.C04.mask_positions',
@@ -18,6 +20,9 @@ THEOREMS = [
     'SF.Bridge.contiguous_ref_bridge', 'SF.Bridge.contiguous_bridge',
     # label keys over a flat index: Series.loc / Frame.loc are run against Index.locToIlocP (driver op index.cloc), about which:
     'SF.C02.bijection', 'SF.C02.slice_inclusive', 'SF.C02.slice_inclusive_descending',
+    # ... Index.locToIlocP's label-slice translation = LocMap.map_slice_args / LocMap.loc_to_iloc TRANSLATED from the current source
+    *locmap_hook.BRIDGE_THEOREMS, 'SF.C02LocMap.gen_slice_inclusive', 'SF.C02LocMap.gen_slice_inclusive_descending_partial', 'SF.C02LocMap.gen_slice_absent',
+    'SF.C02LocMap.gen_element_bijection', 'SF.C02LocMap.gen_list_positions',
     # the FRAME level (Props/C04Frame.lean; model Fr.iloc / Fr.loc = Frame._extract / Frame._extract_loc, driver ops
     # frame.iloc / frame.loc): Key.positions + SF.C03.extract_refines (blocks) + Index._extract_iloc (labels) composed,
     # and SF.C02.bijection composed with them for label keys
@@ -25,7 +30,7 @@ THEOREMS = [
     'SF.C04.frame_iloc_error', 'SF.C04.frame_loc_positional', 'SF.C04.frame_loc_exact', 'SF.C04.frame_loc_element',
     'SF.C03.extract_refines',
 ]
-PARTIAL = []
+PARTIAL = [locmap_hook.PARTIAL]
 CORR_ONLY = ['Frame/Series .iloc with every key kind on both axes (model: Key.positions + list selection in the harness); Frame.iloc / Frame.loc / '
              'Frame.__getitem__ over flat, automatic and date axes (and untouched hierarchical ones) are ALSO run against the Lean Frame model '
              'Fr.iloc / Fr.loc (whole answer: kind, labels and automatic/mapped state of both axes, name, every cell, dtypes, error category); '
@@ -37,7 +42,7 @@ RULE = ('seeded random frames/series (all dtype kinds, random block layouts, ind
         'plus a slice grid; non-trivial = key is not the null slice and the container is non-empty; '
         'distinct = distinct canonical case JSON')
 TRUSTED = ['tools/py2lean.py (translator of slice_to_ascending_slice, slice_to_inclusive_slice, _cols_to_slice, _indices_to_contiguous_pairs); cross-checked against the real functions on a grid each run',
-           'NumPy basic/fancy indexing of a single array is a parameter of the model (compared, not proved)']
+           'NumPy basic/fancy indexing of a single array is a parameter of the model (compared, not proved)', locmap_hook.TRUSTED]
 ASSUMPTIONS = ['NumPy indexing semantics = CPython slice.indices/range semantics (compared on every run)']
 BUDGET = {'quick': 200, 'thorough': 1500}
 
@@ -53,6 +58,8 @@ def nontrivial(c):
 def cases(ctx):
     rng = ctx.rng('main')
     quick = ctx.tier == 'quick'
+    # the translated LocMap functions against the real ones: all label slices over a 3-label index (C02 runs the full grid)
+    yield from lmg.cases(ctx, offsets=(None,), sizes=(3,), pools=('int',))
     # slice grid (translator cross-check + positions)
     if quick:
         for _ in range(600):
@@ -232,6 +239,8 @@ def eval_bloc(ctx, c):
 
 
 def model_lines_(c):
+    if c['k'] == lmg.K:
+        return lmg.model_lines(c)
     if c['k'] == 'sl':
         s = gen.key_to_wire(c['s'])
         return [f'slice.positions {s} {c["n"]}', f'slice.ascending {s} {c["n"]}', f'gen.ascending {s} {c["n"]}',
@@ -262,6 +271,8 @@ def sl_wire(s):
 def evaluate(ctx, c, outs):
     fails = []
     model_on = bool(outs)
+    if c['k'] == lmg.K:
+        return lmg.evaluate(ctx, c, outs)
     if c['k'] == 'sl':
         from static_frame.core.util import slice_to_ascending_slice, slice_to_inclusive_slice
         s = slice(c['s'][1], c['s'][2], c['s'][3])
